@@ -121,6 +121,18 @@ NEEDS = {
  "C18-6": ("acceptRequest continues when CreateNew fails and the existing channel is still Requested with the same base CID", "duplicate new request arriving between CreateNew and Accept of the original"),
  "C20-5": ("ChannelSubscriptions.Stop unsubscribes while holding subscriptionsLk", "Stop overlapping with the delivery of an event (publisher holds the pubsub read lock and needs subscriptionsLk)"),
  "C20-6": ("ChannelsForPeer looks the channel up through getDTChannel (a second RLock of dtChannelsLk) inside its own RLock", "a writer (trackDTChannel / CleanupChannel) arriving between the two read locks"),
+ "C01-7": ("DataReceived/DataSent/DataQueued actions assign the block index unconditionally", "a non-unique replayed block with a lower index after a restart, then another restart"),
+ "C01-8": ("gsCompletedResponseListener: RequestCompletedPartial is not an error when the local node initiated the channel", "push whose sender lacks a block the receiver already has"),
+ "C06-7": ("CborGenCompatibleNode.UnmarshalCBOR turns a decoded null node into 'no node'", "typed voucher / result whose payload is IPLD null"),
+ "C06-8": ("SetDataLimit / SetRequiresFinalization skip 'unchanged' updates after an unsynchronised read", "two back-to-back updates: the second is compared with the state before the first was applied"),
+ "C09-7": ("CloseDataTransferChannelWithError returns before firing Error when the cancel message cannot be sent", "monitor closes a channel while the peer is unreachable"),
+ "C09-8": ("Cancel event restricted to a hand-written list of statuses that omits ResponderFinalizingTransferFinished", "cancel of a channel in ResponderFinalizingTransferFinished"),
+ "C13-7": ("migration renames the stage named after the deprecated paused status to Ongoing", "paused version-2 record whose trace has a stage named after its status"),
+ "C13-8": ("NewDataTransfer wraps the application's datastore in namespace.Wrap(ds, \"/channels\")", "any datastore written by a previous run"),
+ "C15-7": ("one shared backoff object, reset only on success", "a send after one that used up (part of) its attempts"),
+ "C15-8": ("FromNet decodes with DontParseBeyondEnd", "well-formed message followed by garbage / a truncated second message on the same stream"),
+ "C19-7": ("processUpdateVoucher records the update voucher under the channel's opening voucher type", "update voucher of another type"),
+ "C19-8": ("Channels.NewVoucherResult skips results whose payload is nil or IPLD null", "typed voucher result with a null payload"),
  "C19-2": ("NewVoucher restricted to a hand-built status list that omits ResponderFinalizingTransferFinished", "SendVoucher while the initiator is in ResponderFinalizingTransferFinished"),
 }
 NOT_CAUGHT={"C17-5":"the per-transfer subscriber misses Error / CleanupComplete only because the real notifier delivers them asynchronously, after the unsubscribe; the synchronous model delivers them inside channels.Error, before the unsubscribe runs - notification timing relative to the caller is declared outside the claim under C17","C09-6":"the re-run of the cleanup entry function needs an event to arrive in the window between entering Cancelling/Failing/Completing and CleanupComplete, which only exists in the asynchronous go-statemachine queue (the synchronous model finishes the cleanup before the next event); the unchanged tree has the same re-entry for the events that are already FromAny().ToNoChange() (DataReceived, Disconnected, ...), so this window is declared outside the claim under C09","C17-3":"needs the asynchronous notification queue of go-statemachine (a subscriber slower than 5 s lets the next notification overtake); the synchronous model group delivers notifications inside Send, so ordering under slow subscribers is declared outside the claim"}
@@ -155,7 +167,7 @@ for key,(what,needs) in sorted(NEEDS.items()):
     if key=="C20-2":
         meta["demo_needs_race_detector"]=True
         meta["confirmed_by_me"]["commands"]=[c.replace("go test -vet=off","go test -race -vet=off") if "demo" in c else c for c in meta["confirmed_by_me"]["commands"]]
-    meta["round"]=1 if int(k)<=2 or (p=="C20" and int(k)<=3) else (2 if int(k)<=4 else 3)
+    meta["round"]=1 if int(k)<=2 or (p=="C20" and int(k)<=3) else (2 if int(k)<=4 else (3 if int(k)<=6 else 4))
     json.dump(meta,open(f"{out}/meta.json","w"),indent=1)
     n+=1
 print("kept",n)
